@@ -151,15 +151,17 @@ def failing_pairs(v, kinds):
     return sorted(out)
 
 
-def one_session(rnd, tid, root, df=None, kinds=None):
-    """Returns (events, info) for one discover/serialise/verify-or-detect session."""
+def one_session(rnd, tid, root, df=None, kinds=None, copy=True):
+    """Returns (events, info) for one discover/serialise/verify-or-detect session.
+    copy=False: the caller's frame object itself is handed to every call (a frame that lives on between sessions)."""
     from tdda.constraints import discover_df, verify_df, detect_df
     if df is None:
         df, kinds = rich_frame(rnd)
     rex = rnd.random() < 0.5
     path = rnd.choice(['dict', 'file'])
     events = [{'tid': tid, 'ev': 'Init'}]
-    info = {'kinds': kinds, 'nrows': len(df), 'rex': rex, 'path': path, 'frame': df.head(6).to_dict(orient='list')}
+    info = {'kinds': kinds, 'nrows': len(df), 'rex': rex, 'path': path, 'frame': df.head(6).to_dict(orient='list'), 'same_object': not copy}
+    given = (lambda: df.copy()) if copy else (lambda: df)
 
     def ev(name, **kw):
         e = {'tid': tid, 'ev': name, 'raised': 'none'}
@@ -168,7 +170,7 @@ def one_session(rnd, tid, root, df=None, kinds=None):
         return e
     try:
         with cl.quiet():
-            cs = discover_df(df.copy(), inc_rex=rex)
+            cs = discover_df(given(), inc_rex=rex)
         ev('Discover', rex=rex)
     except Exception as ex:
         ev('Discover', rex=rex, raised='%s: %s' % (type(ex).__name__, str(ex)[:160]))
@@ -205,9 +207,9 @@ def one_session(rnd, tid, root, df=None, kinds=None):
         try:
             with cl.quiet():
                 if op == 'verify':
-                    v = verify_df(df.copy(), src, repair=repair)
+                    v = verify_df(given(), src, repair=repair)
                 else:
-                    v = detect_df(df.copy(), src, repair=repair, per_constraint=True, output_fields=[])
+                    v = detect_df(given(), src, repair=repair, per_constraint=True, output_fields=[])
             e['failures'] = int(v.failures)
             e['failed'] = failing_pairs(v, kinds)
             if op == 'detect' and v.detection is not None:
@@ -216,3 +218,15 @@ def one_session(rnd, tid, root, df=None, kinds=None):
         except Exception as ex:
             ev('Run', raised='%s: %s' % (type(ex).__name__, str(ex)[:160]), **e)
     return events, info
+
+
+def change_in_place(rnd, df, kinds):
+    """New values of the same kinds assigned to the columns of the SAME frame object (what a notebook user does between two
+    looks at a frame); returns False if the kinds cannot be redrawn at this length."""
+    n = len(df)
+    for nm in list(df.columns):
+        s, k = rich_series(rnd, n, kinds[nm])
+        if len(s) != n:
+            return False
+        df[nm] = s.reset_index(drop=True).values if False else s.reset_index(drop=True)
+    return True
